@@ -8,6 +8,7 @@ import (
 	"math"
 	"path"
 	"path/filepath"
+	"strings"
 
 	"reduction.dev/reduction/dkv/recovery"
 	"reduction.dev/reduction/proto/snapshotpb"
@@ -111,4 +112,19 @@ func pathSegment(id uint64) string {
 	buf := make([]byte, 8)
 	binary.BigEndian.PutUint64(buf, reversed)
 	return base64.RawURLEncoding.EncodeToString(buf)
+}
+
+// snapshotFileID returns the checkpoint ID encoded in the name of a job snapshot
+// file (job-<pathSegment(id)>.snapshot). ok is false for any other file.
+func snapshotFileID(filePath string) (id uint64, ok bool) {
+	name := filepath.Base(filePath)
+	if !strings.HasPrefix(name, "job-") || !strings.HasSuffix(name, ".snapshot") {
+		return 0, false
+	}
+	segment := strings.TrimSuffix(strings.TrimPrefix(name, "job-"), ".snapshot")
+	buf, err := base64.RawURLEncoding.DecodeString(segment)
+	if err != nil || len(buf) != 8 {
+		return 0, false
+	}
+	return math.MaxUint64 - binary.BigEndian.Uint64(buf), true
 }
